@@ -36,7 +36,7 @@ func signVerify(priv *btcec.PrivateKey, pub *btcec.PublicKey, taproot bool, salt
 // C05 says about its private accessors in the current lock state. origin
 // tells where the object came from (issue, lookup, derive, last, ...).
 func (r *run) verifyChained(ma waddrmgr.ManagedAddress, sc *scopeM, a *acctM, rec *addrM, origin string) bool {
-	c3 := r.prop == "C03"
+	c3 := r.prop == "C03" || r.prop == "C10"
 	want, key, err := r.expectAddr(sc, a, rec.Branch, rec.Index)
 	if err != nil {
 		r.harnessTrouble("oracle", err)
@@ -198,14 +198,14 @@ func (r *run) checkIssued(i int, viaRoot bool) bool {
 	}
 	r.sinceRestart = false
 	if err != nil {
-		if r.prop == "C03" || r.prop == "C08" {
+		if r.modelProp() {
 			r.fail("issued-address-not-found:by="+rec.By+":"+errName(err),
 				"Address(%s) of an issued address (account %d %s index %d, created by %s) failed: %v",
 				rec.Addr, rec.Acct, brName(rec.Branch), rec.Index, rec.By, err)
 		}
 		return !r.stop
 	}
-	if used != rec.Used && (r.prop == "C08" || r.prop == "C03") {
+	if used != rec.Used && r.modelProp() {
 		r.fail("used-flag-wrong", "Used() of %s is %v, committed state says %v", rec.Addr, used, rec.Used)
 		return false
 	}
@@ -247,7 +247,7 @@ func (r *run) checkImported(i int, viaRoot bool) bool {
 		}
 		return e
 	})
-	c3 := r.prop == "C03"
+	c3 := r.prop == "C03" || r.prop == "C10"
 	if err != nil {
 		if c3 || r.prop == "C08" {
 			r.fail("imported-address-not-found:kind="+rec.Kind+":"+errName(err), "Address(%s) of an imported %s failed: %v", rec.Addr, rec.Kind, err)
@@ -378,7 +378,7 @@ func (r *run) checkImported(i int, viaRoot bool) bool {
 // against the committed model (C03: "reported ... account", next indices;
 // C08: memory equals committed state).
 func (r *run) acctQuery(si int, sc *scopeM, a *acctM) {
-	if r.prop != "C03" && r.prop != "C08" {
+	if !r.modelProp() {
 		return
 	}
 	sm := r.scoped(si)
@@ -506,6 +506,8 @@ func (r *run) finish() {
 		r.c4.final()
 	case "C08":
 		r.c8.observe("end", "")
+	case "C10":
+		r.sweepC03()
 	case "C05":
 		r.c5.final()
 	}
